@@ -970,7 +970,16 @@ def register (c : C) (id : Nat) : Bool × C :=
   let r := Alloc.useValue c.s.pidMan id
   (r.1, { c with s := { c.s with pidMan := r.2 } })
 
-def releasePacketId (c : C) (id : Nat) : C := releaseIfUsed c id
+/-- `release_packet_id`; fix ba1a812: the exchange the identifier was obtained for is abandoned
+    with it — no wait set keeps the identifier, and an abandoned PUBLISH no longer counts -/
+def releasePacketId (c : C) (id : Nat) : C :=
+  if isUsed c.s id then
+    let c := (releaseId c id).push (.released id)
+    let awaited := id ∈ c.s.puback ∨ id ∈ c.s.pubrec
+    let c := { c with s := { c.s with suback := del id c.s.suback, unsuback := del id c.s.unsuback,
+                                      puback := del id c.s.puback, pubrec := del id c.s.pubrec } }
+    if awaited then decSendCount c else c
+  else c
 
 def eraseStoredPublish (c : C) (id : Nat) : C :=
   let r := storeErasePublish id c.s.store
